@@ -1,5 +1,5 @@
 //@PROBE file=src/track/store.rs test=verif_probe_store_c09 clauses=C09/ units=store_future_merge,store_c09
-//@BOUND shard counts 1..=5; ids 0..=5 and wide ids (2^32+1, 2*2^32+2, 7*2^40+3, 0x9e3779b97f4a7c15, u64::MAX-1, u64::MAX); merges over {dest missing, src missing, same id, attribute-merge failure, optimize failure, success} x {remove_src yes/no}; add() on a missing id vs builder
+//@BOUND shard counts 1..=5; ids 0..=5 and wide ids (2^32+1, 2*2^32+2, 7*2^40+3, 0x9e3779b97f4a7c15, u64::MAX-1, u64::MAX); merges over {dest missing, src missing, same id, attribute-merge failure, optimize failure, success} x {remove_src yes/no}; the failure cases also for a source without any observation class and for class lists None / empty / [0]; add() on a missing id vs builder
 #[cfg(test)]
 mod verif_probe_store_c09 {
     use super::*;
@@ -83,6 +83,27 @@ mod verif_probe_store_c09 {
             let before = peek(&s, 0);
             if s.merge_external(0, &poison, None, true).is_ok() { failures.push(format!("{}: merge_external with a failing optimize reports Ok", ctx)); }
             if peek(&s, 0) != before { failures.push(format!("{}: failed merge (optimize) changed the destination", ctx)); }
+            // ---- ... for every shape of the source (no observation class at all, one observation) and of the class list
+            for vals in [&[][..], &[5.0f32][..]] {
+                for classes in [None, Some(&[][..]), Some(&[0u64][..])] {
+                    let what = format!("source with {} observation(s), classes {:?}", vals.len(), classes);
+                    let src = mk(&s, 52, vals);
+                    if s.merge_external(77, &src, classes, true).is_ok() { failures.push(format!("{}: merge_external into a missing destination reports Ok ({})", ctx, what)); }
+                    let same = mk(&s, 2, vals);
+                    let before = peek(&s, 2);
+                    if s.merge_external(2, &same, classes, true).is_ok() { failures.push(format!("{}: merging a track into itself (same id) reports Ok ({})", ctx, what)); }
+                    let mut bad = mk(&s, 53, vals); bad.attributes.fail_merge = true;
+                    if s.merge_external(2, &bad, classes, true).is_ok() { failures.push(format!("{}: merge_external with a failing attribute merge reports Ok ({})", ctx, what)); }
+                    if peek(&s, 2) != before { failures.push(format!("{}: failed merge changed the destination ({})", ctx, what)); }
+                    let f = s.merge_external_noblock(77, mk(&s, 54, vals), classes, true).unwrap();
+                    if f.get().is_ok() { failures.push(format!("{}: the future of merge_external_noblock into a missing destination reports Ok ({})", ctx, what)); }
+                    s.add_track(mk(&s, 55, vals)).unwrap();
+                    let n = s.shard_stats().iter().sum::<usize>();
+                    if s.merge_owned(77, 55, classes, true, true).is_ok() { failures.push(format!("{}: merge_owned into a missing destination reports Ok ({})", ctx, what)); }
+                    if peek(&s, 55).is_none() || s.shard_stats().iter().sum::<usize>() != n { failures.push(format!("{}: failed merge_owned lost its source ({})", ctx, what)); }
+                    s.fetch_tracks(&[55]);
+                }
+            }
             // ---- merge_owned
             if s.merge_owned(0, 99, None, true, true).is_ok() { failures.push(format!("{}: merge_owned with a missing source reports Ok", ctx)); }
             let (b0, b2) = (peek(&s, 0), peek(&s, 2));
